@@ -385,6 +385,8 @@ pub fn def() -> PropertyDef {
                 |_: &RunCtx, _: Option<&()>| prop::collection::vec(any::<u8>(), 0..600).prop_map(|bytes| RawSpec { bytes }),
                 raw_oracle::<R>,
             ),
+            crate::fuzzdec::corpus_sub("decode"),
+            crate::fuzzdec::corpus_sub("verify"),
         ],
     }
 }
